@@ -313,6 +313,10 @@ func (c *Ctx) rwSpec(w *Wrapper) *Spec {
 			case "(*compress/gzip.Writer).Write":
 				return "gzip-write"
 			case "net/http.Error":
+				// on the embedded writer itself it is WriteHeader(code) followed by a Write of the message
+				if strings.Contains(p.Desc(ci.Common().Args[0], fr), "fld:"+w.Key+"."+w.Embed) {
+					return "emb:WriteHeader(" + p.Desc(ci.Common().Args[2], fr) + ")\x00emb:Write"
+				}
 				if code, ok := constInt(ci.Common().Args[2]); ok {
 					return "status:" + itoa(code)
 				}
